@@ -107,10 +107,7 @@ def cases_of(rec):
             # that spawns a thread: on a shared engine a later (#%gc-collect) of an unrelated case
             # sometimes never returns once native threads have been spawned - that is the stop-the-world
             # protocol of C15-C17, not a property of the value under test
-            # ... and for every case that calls (#%gc-collect): on one engine the k-th call of a row takes
-            # 2^k times as long (6 ms, 12 ms, ... 1 s, then it starts over; measured, value independent),
-            # which would trip the time limit of whatever case comes tenth
-            fresh = rec["fam"] == "deep" or o["op"] in ("send", "collect", "drop")
+            fresh = rec["fam"] == "deep" or o["op"] in ("send", "collect")
             out.append({"id": f"{part}-{o['op']}-{h}", "fresh": fresh, "tag": o["tag"],
                         "steps": steps, "meta": {"fam": rec["fam"], "op": o["op"], "wr": g.get("wr", ""),
                                                  "nbuild": len(build), "n": rec["n"]}})
@@ -142,7 +139,8 @@ def select_cyc(cases, per_op, seed):
         strata = {}
         for c in sorted(by_op[op], key=lambda c: c["id"]):
             t = c["tag"]
-            key = (tagval(t, "root"), tagval(t, "cyc"), tagval(t, "reach"), tagval(t, "shared"), tagval(t, "bisim"))
+            key = (tagval(t, "root"), tagval(t, "cyc"), tagval(t, "reach"), tagval(t, "shared"), tagval(t, "bisim"),
+                   tagval(t, "asis"))
             strata.setdefault(key, []).append(c)
         keys = sorted(strata)
         for k in keys:
@@ -309,10 +307,20 @@ def run(tier, seed):
     per_op = T["cyc_per_op"]
     if os.environ.get("C18_ALL"):
         per_op = {k: 10 ** 9 for k in per_op}
+    if os.environ.get("C18_OPS"):
+        per_op = {k: v for k, v in per_op.items() if k in os.environ["C18_OPS"].split(",")}
     sel = select_cyc(cyc, per_op, seed)
     if only in ("", "cyc"):
-        verdicts = vlib.replay([strip(c) for c in sel], work, jobs=12, timeout_ms=T["cyc_timeout_ms"], name="cyc", binary=BINARY)
-        judge(r, sel, verdicts, stats)
+        # (#%gc-collect): the k-th call in one PROCESS takes 2^k times as long (6 ms ... 1 s, then it
+        # starts over; value independent, collector policy) - the cases that call it get a longer limit
+        gc = [c for c in sel if c["meta"]["op"] == "collect"]
+        rest = [c for c in sel if c["meta"]["op"] != "collect"]
+        # vlib gives up on a chunk after 200 dead processes: batches of 1800 cases, 12 chunks each
+        batches = [(f"cyc{i // 1800}", rest[i:i + 1800], T["cyc_timeout_ms"]) for i in range(0, len(rest), 1800)]
+        for name, group, tmo in batches + [("cycgc", gc, 8 * T["cyc_timeout_ms"])]:
+            if group:
+                verdicts = vlib.replay([strip(c) for c in group], work, jobs=12, timeout_ms=tmo, name=name, binary=BINARY)
+                judge(r, group, verdicts, stats)
     if only in ("", "deep"):
         small = [c for c in deep if c["meta"]["n"] <= 1000]
         mid = [c for c in deep if 1000 < c["meta"]["n"] < 1000000]
